@@ -303,7 +303,12 @@ impl Responder {
         let mut rejected = Vec::new();
         // Republish all the dispute transactions of the reorged trackers.
         for uuid in reorged_trackers {
-            let tracker = dbm.load_tracker(uuid).unwrap();
+            // The tracker may be gone by now (e.g. its dispute was re-mined and the penalty bounced, so the Watcher
+            // dropped the appointment along with its tracker).
+            let tracker = match dbm.load_tracker(uuid) {
+                Some(tracker) => tracker,
+                None => continue,
+            };
             let dispute_txid = tracker.dispute_tx.compute_txid();
             // Try to publish the dispute transaction.
             let should_publish_penalty = match carrier.send_transaction(&tracker.dispute_tx) {
